@@ -77,7 +77,8 @@ def run(pid, tier):
             'what': 'TrRelUnionFind (trrel_union_find.rs, extracted from the source file each run): class ids form an acyclic subsumption forest (rank witness); get_dominant_id and elem_set '
                     'return the root; get_dominant_id_mut_with_depth / get_dominant_id_mut / elem_set_update (path compression, stale elem_ids refreshed) change the class of no element; '
                     'the reported depth is the exact number of subsumption steps and cannot overflow (at most one step per subsumption); both recursions terminate; add_node_new / add_node give an '
-                    'unknown element a fresh class of its own, report whether it was new, and keep the class of every known element. UNBOUNDED. '
+                    'unknown element a fresh class of its own, report whether it was new, and keep the class of every known element; add_one_connection records exactly one class-level connection and keeps the '
+                    'reverse connection map a mirror of the forward one. UNBOUNDED. '
                     'add / add_set_connection / merge_multiple and the queries over the connection closure are NOT under contract (bounded native histories only).',
             'functions_verified': tv_ok, 'functions_total': len(tv_funcs), 'solver_wall_s': round(tv.get('verus_s', 0.0), 2),
             'real_functions_under_contract': [r_['fn'] for r_ in tv['log'].real_fns] if tv.get('log') else [],
@@ -94,7 +95,7 @@ def run(pid, tier):
         'functions_under_contract': ['ascent_byods_rels::uf::elems::Elem::union', 'ascent_byods_rels::uf::elems::Elem::union_by_rank', 'ascent_byods_rels::uf::elems::Elems::find',
                                      'ascent_byods_rels::uf::elems::Elems::push', 'ascent_byods_rels::uf::elems::Class::next (iter_class, iter_class_unchecked)',
                                      'ascent_byods_rels::uf::UnionFind::union_internal', 'ascent_byods_rels::uf::UnionFind::union'],
-        'functions_under_verus_contract': ['ascent_byods_rels::trrel_union_find::TrRelUnionFind::{get_dominant_id, get_dominant_id_mut_with_depth, get_dominant_id_mut, elem_set, elem_set_update, add_node_new, add_node}'],
+        'functions_under_verus_contract': ['ascent_byods_rels::trrel_union_find::TrRelUnionFind::{get_dominant_id, get_dominant_id_mut_with_depth, get_dominant_id_mut, elem_set, elem_set_update, add_node_new, add_node, add_one_connection}'],
         'functions_bounded_only': ['UnionFind::{add, add_clone, find, find_item, union_add, union_add_clone, len, is_empty, ok}', 'Elems::{ok, iter_classes}',
                                    'TrRelUnionFind::{add, contains, iter_all, set_of, rev_set_of, count_exact, is_empty, assert_disjoint_invariant, assert_set_connections_dominant_sets}'],
         'samples': [
